@@ -300,6 +300,87 @@ def run(rep, tier, seed):
                             if np.max(np.abs(yarr - pr.root)) > bound:
                                 fails.append((case, f"{solname}: returned point is {np.max(np.abs(yarr - pr.root)):.3g} from the root, "
                                                     f"allowed tol*cond = {bound:.3g}"))
+    # ---- third clause on inputs the random families do not reach
+    from scipy.sparse import csc_array as _csc
+    known_kink = []
+    rng3 = np.random.default_rng([seed, 606])
+    # (a) sicnm with the partial decomposition of its linear system (a non-default option): same roots as with the full one
+    rootq = np.array([1.0, -0.5])
+    quad = Prob("1.2 dx + 0.3 dz + 0.3 dx^2, -0.2 dx + 0.9 dz + 0.3 dz^2 (d = y - root)",
+                lambda y: np.array([1.2 * (y[0] - 1.0) + 0.3 * (y[1] + 0.5) + 0.3 * (y[0] - 1.0) ** 2, -0.2 * (y[0] - 1.0) + 0.9 * (y[1] + 0.5) + 0.3 * (y[1] + 0.5) ** 2]),
+                lambda y: _csc(np.array([[1.2 + 0.6 * (y[0] - 1.0), 0.3], [-0.2, 0.9 + 0.6 * (y[1] + 0.5)]])),
+                lambda y, v: _csc(np.array([[0.6 * v[0], 0.0], [0.0, 0.6 * v[1]]])), rootq, 2)
+    pool = [(quad, rootq + np.array([0.2, -0.15]))]
+    for q in range(3 if tier == "quick" else 20):
+        prq = family(rng3, force="dense")[0]
+        if "k=0.0" in prq.name:                             # smooth members only
+            pool.append((prq, prq.root + 0.2 * rng3.normal(size=prq.n) / np.sqrt(prq.n)))
+    for pr, y0 in pool:
+        for tol in (1e-8, 1e-11):
+            nruns += 1
+            case = dict(problem=pr.name, start="in-basin", y0=[float(x) for x in y0], tol=tol, solver="sicnm", option="partial_decompose=True")
+            try:
+                sol = quiet(sicnm, pr.nae(), y0.copy(), Opt(ite_tol=tol, partial_decompose=True))
+            except Exception:  # noqa
+                continue
+            r = maxabs(pr.F(np.asarray(sol.y, dtype=float)))
+            if bool(sol.stats.succeed) != bool(r < tol):
+                fails.append((case, f"sicnm(partial_decompose): succeed={sol.stats.succeed} but max|F(y)| = {r!r}, tol = {tol!r}"))
+            elif not sol.stats.succeed:
+                fails.append((case, f"sicnm(partial_decompose): did not converge from inside the basin (max|F| = {r!r} after {sol.stats.nstep} steps); "
+                                    f"with the full decomposition it does"))
+            else:
+                # the partial decomposition solves the same linear system: the same integration, up to rounding
+                full = quiet(sicnm, pr.nae(), y0.copy(), Opt(ite_tol=tol))
+                if full.stats.succeed and sol.stats.nstep > 3 * full.stats.nstep + 10:
+                    fails.append((case, f"sicnm(partial_decompose) needs {sol.stats.nstep} steps where the full decomposition of the same linear "
+                                        f"system needs {full.stats.nstep}: the factors it solves with are not those of the current step"))
+    # (b) a regular root of large magnitude (1e4) and a loose tolerance: a test relative to |y| must not stand in for the residual test
+    Ab = np.array([[2.0, 0.3], [-0.2, 1.5]]); rootb = np.array([1.0e4, -4.0e3])
+    prb = Prob("linear+cubic, root of magnitude 1e4", lambda y: Ab @ (y - rootb) + 0.05 * (y - rootb) ** 3,
+               lambda y: _csc(Ab + np.diag(0.15 * (y - rootb) ** 2)), lambda y, v: _csc(np.diag(0.3 * (y - rootb) * v)), rootb, 2)
+    for tol in (1e-4, 1e-6):
+        for solname, solver in solvers.items():
+            nruns += 1
+            y0 = rootb + np.array([0.3, -0.2])
+            case = dict(problem=prb.name, start="in-basin", y0=[float(x) for x in y0], tol=tol, solver=solname)
+            try:
+                sol = quiet(solver, prb.nae(), y0.copy(), Opt(ite_tol=tol))
+            except Exception:  # noqa
+                continue
+            yb = np.asarray(sol.y, dtype=float)
+            r = maxabs(prb.F(yb))
+            if bool(sol.stats.succeed) != bool(r < tol):
+                fails.append((case, f"{solname}: succeed={sol.stats.succeed} but max|F(y)| = {r!r}, tol = {tol!r}"))
+            elif not sol.stats.succeed:
+                fails.append((case, f"{solname}: did not converge from inside the basin of a root of magnitude 1e4 (max|F| = {r!r}, "
+                                    f"{np.max(np.abs(yb - rootb)):.3g} from the root)"))
+    # (c) a kink of a Saturation between the start and the root (mildly non-smooth): recorded finding for sicnm
+    sat = lambda v, lo, hi: np.minimum(np.maximum(v, lo), hi)
+    dsat = lambda v, lo, hi: 1.0 if lo < v < hi else 0.0
+    prk = Prob("x + 0.4 z + 0.5 Sat(x, +-0.05), -0.3 x + z + 0.3 Sat(z, -0.1, 0.2)",
+               lambda y: np.array([y[0] + 0.4 * y[1] + 0.5 * sat(y[0], -0.05, 0.05), -0.3 * y[0] + y[1] + 0.3 * sat(y[1], -0.1, 0.2)]),
+               lambda y: _csc(np.array([[1.0 + 0.5 * dsat(y[0], -0.05, 0.05), 0.4], [-0.3, 1.0 + 0.3 * dsat(y[1], -0.1, 0.2)]])),
+               lambda y, v: _csc(np.zeros((2, 2))), np.array([0.0, 0.0]), 2)
+    for solname, solver in solvers.items():
+        nruns += 1
+        y0 = np.array([0.3, 0.05])
+        case = dict(problem=prk.name, start="in-basin, beyond a kink", y0=[0.3, 0.05], tol=1e-8, solver=solname)
+        try:
+            sol = quiet(solver, prk.nae(), y0.copy(), Opt(ite_tol=1e-8))
+        except Exception:  # noqa
+            continue
+        r = maxabs(prk.F(np.asarray(sol.y, dtype=float)))
+        if bool(sol.stats.succeed) != bool(r < 1e-8):
+            fails.append((case, f"{solname}: succeed={sol.stats.succeed} but max|F(y)| = {r!r}, tol = 1e-08"))
+        elif not sol.stats.succeed:
+            (known_kink if solname == "sicnm" else fails).append((case, f"{solname}: did not converge across a Saturation kink (max|F| = {r!r})"))
+    from harness.common import known_findings as _kf
+    kfk = [e for e in _kf("C06") if e.get("id") == "D48"]
+    if known_kink and kfk:
+        rep.known("D48", kfk[0]["line"].split("property=C06 ", 1)[1] + f"; reproduced: {known_kink[0][1]}")
+    else:
+        fails += known_kink
     # a solution once returned stays what it was: later calls of any solver must not write into it
     for sol, yarr, snapshot, solname, case in retained:
         now = np.asarray(sol.y.array if hasattr(sol.y, "array") else sol.y, dtype=float)
